@@ -280,7 +280,7 @@ func TestVerifC19Compose(t *testing.T) {
 			}
 			mss := []uint32{maxEnt + 11, 4096, 65536}
 			if !vhfsThorough() {
-				mss = []uint32{maxEnt + 11, 8192}
+				mss = []uint32{maxEnt + 11, 4096, 8192}
 			}
 			for _, ms := range mss {
 				if ms < 300 {
@@ -288,7 +288,7 @@ func TestVerifC19Compose(t *testing.T) {
 				}
 				cs := []uint32{maxEnt, 2*maxEnt - 1, 1000, ms - 11, ms, 1 << 20, maxEnt - 1, 0}
 				if !vhfsThorough() {
-					cs = []uint32{maxEnt, 2*maxEnt - 1, 1 << 20, maxEnt - 1}
+					cs = []uint32{maxEnt, ms + 100, 1 << 20, maxEnt - 1}
 				}
 				if c.n > 400 {
 					cs = []uint32{maxEnt, 4000, 1 << 20}
